@@ -52,9 +52,10 @@ type evT struct {
 	H   string `json:"h"`
 	Ev  string `json:"ev"`
 	V   string `json:"v"`
-	C   int    `json:"c,omitempty"`  // connection number (events of one ShipConnection, see live.go)
-	ID  string `json:"id,omitempty"` // payload / SHIP id carried by a frame
-	N   int    `json:"n,omitempty"`  // further identical events that followed immediately
+	C   int    `json:"c,omitempty"`   // connection number (events of one ShipConnection, see live.go)
+	ID  string `json:"id,omitempty"`  // payload / SHIP id carried by a frame
+	N   int    `json:"n,omitempty"`   // further identical events that followed immediately
+	Old bool   `json:"old,omitempty"` // an event of a connection of an earlier incarnation of the hub (it was restarted since)
 }
 
 type hubObs struct {
@@ -117,7 +118,7 @@ func (l *elog) add(h, ev, v string) {
 	l.last = time.Now()
 	l.mu.Unlock()
 }
-func (l *elog) addc(h string, c int, ev, v, id string) {
+func (l *elog) addc(h string, c int, ev, v, id string, old bool) {
 	l.mu.Lock()
 	if len(l.ev) >= maxEvents {
 		l.flood = true
@@ -125,7 +126,7 @@ func (l *elog) addc(h string, c int, ev, v, id string) {
 		l.mu.Unlock()
 		return
 	}
-	l.ev = append(l.ev, evT{Seq: len(l.ev) + 1, T: time.Since(l.start).Milliseconds(), H: h, Ev: ev, V: v, C: c, ID: id})
+	l.ev = append(l.ev, evT{Seq: len(l.ev) + 1, T: time.Since(l.start).Milliseconds(), H: h, Ev: ev, V: v, C: c, ID: id, Old: old})
 	l.last = time.Now()
 	l.mu.Unlock()
 }
@@ -523,12 +524,11 @@ func runScript(s scriptT) obsT {
 		local := api.NewServiceDetails(n.ski)
 		local.SetShipID("shipid-" + name)
 		n.mu.Lock()
-		n.gen++
 		g := n.gen
 		n.mu.Unlock()
 		// callbacks of an earlier incarnation (goroutines that outlive its Shutdown) do not reach the restarted application
 		n.h = hub.NewHub(&gate{n: n, gen: g}, &mdnsAdapter{m: mgr, p: n.prov}, ports[name], certs[name], local)
-		hubNodes.Store(n.h, n)
+		hubNodes.Store(n.h, &hubRef{n: n, gen: g})
 		// what the application knows about the peer from earlier sessions: its SHIP id (C09)
 		switch s.IDs[name] {
 		case "right":
@@ -538,7 +538,7 @@ func runScript(s scriptT) obsT {
 		}
 	}
 	for _, name := range []string{"A", "B"} {
-		n := &node{name: name, ski: skis[name], l: l, eth: eth}
+		n := &node{name: name, ski: skis[name], l: l, eth: eth, gen: 1}
 		if name == "B" {
 			n.connBase = 1000
 		}
@@ -637,6 +637,11 @@ func runScript(s scriptT) obsT {
 		case "Restart":
 			// the device restarts: hub, mDNS manager and application state are new, identity (certificate, port) and the user's
 			// pairing decisions are the same
+			// from here on the incarnation that goes down no longer counts: its callbacks do not reach the (restarted) application,
+			// and what it still answers its connections while it shuts down is not judged against the new incarnation's history
+			n.mu.Lock()
+			n.gen++
+			n.mu.Unlock()
 			l.add(op.H, "OpRestart", "")
 			n.h.Shutdown()
 			n.mu.Lock()
@@ -799,7 +804,7 @@ func runScript(s scriptT) obsT {
 	// trust and the approvals (the rest is in Conns)
 	hubLevel := o.Events[:0:0]
 	for _, e := range o.Events {
-		if e.C == 0 || e.Ev == "c.q" || (e.Ev == "c.enter" && e.V == "approve") {
+		if e.C == 0 || (!e.Old && (e.Ev == "c.q" || (e.Ev == "c.enter" && e.V == "approve"))) {
 			hubLevel = append(hubLevel, e)
 		}
 	}
